@@ -235,8 +235,14 @@ func worldHTTP(w *World) {
 		}
 		ip := fmt.Sprintf("10.0.3.%d", 20+ci)
 		wg.Add(1)
+		// (the HTTP/2 preface is not recognised on a port shared with the control protocol)
+		viaH2C := !share && w.KnobBool(fmt.Sprintf("conn%d.h2c", ci), 20)
 		w.UserN.Go(func() {
 			defer wg.Done()
+			if viaH2C {
+				hw.userH2C(addr, ip, cs, rewriteHost, setReq, setResp)
+				return
+			}
 			hw.userConn(addr, ip, cs, rewriteHost, setReq, setResp)
 		})
 	}
